@@ -779,6 +779,7 @@ func (vc *VC) execLoop(fr *frame, st *State, ld *loopDesc) *State {
 	loopPos := ld.body.Lbrace + 1
 	fr.specPos = loopPos
 	defer func() { fr.curLoop = fr.curLoop[:len(fr.curLoop)-1]; fr.specPos = savedPos }()
+	vc.applyHints(fr, st, fmt.Sprintf("loop%d.before", ld.ord))
 	checkInv(st, "inv-init")
 	// 2. havoc
 	entry := st.clone()
@@ -844,7 +845,11 @@ func (vc *VC) execLoop(fr *frame, st *State, ld *loopDesc) *State {
 	exit.pc = vc.newPC(head, Not(c))
 	body := head.clone()
 	body.pc = vc.newPC(head, c)
-	if !vc.noSafety {
+	if spec != nil && spec.Unreachable {
+		// the contract claims the loop body is dead code under the precondition: prove it
+		vc.oblige(body, "unreachable", tag, ld.pos, False, "loop body is unreachable under the precondition")
+		body.pc = False
+	} else if !vc.noSafety {
 		o := vc.oblige(body, "canary", tag, ld.pos, False, "loop body reachable under invariant")
 		if o != nil {
 			o.Canary = true
@@ -856,6 +861,7 @@ func (vc *VC) execLoop(fr *frame, st *State, ld *loopDesc) *State {
 		dec0 = vc.term(vc.evalSpec(fr, body, nil, spec.Decreases.Expr, nil))
 		dec0 = vc.define("dec", dec0)
 	}
+	vc.applyHints(fr, body, fmt.Sprintf("loop%d.body", ld.ord))
 	bc := &jumpCollector{label: ld.label}
 	cc := &jumpCollector{label: ld.label}
 	fr.breaks = append(fr.breaks, bc)
@@ -872,6 +878,7 @@ func (vc *VC) execLoop(fr *frame, st *State, ld *loopDesc) *State {
 		end = ld.post(end)
 	}
 	if end != nil {
+		vc.applyHints(fr, end, fmt.Sprintf("loop%d.end", ld.ord))
 		checkInv(end, "inv-keep")
 		if hasDec {
 			d1 := vc.term(vc.evalSpec(fr, end, nil, spec.Decreases.Expr, nil))
